@@ -108,7 +108,9 @@ func (mailbox *BoundedMailbox) Dequeue() (msg *ReceiveContext) {
 // IsEmpty reports whether the mailbox currently has no messages.
 // This check is a snapshot and may change immediately under concurrency.
 func (mailbox *BoundedMailbox) IsEmpty() bool {
-	return mailbox.underlying.Len() == 0
+	// a disposed ring keeps its length but Get fails for ever: report it empty so that
+	// a turn on a stopped actor ends instead of reclaiming for ever
+	return mailbox.underlying.IsDisposed() || mailbox.underlying.Len() == 0
 }
 
 // Len returns the current number of messages in the mailbox.
